@@ -217,7 +217,9 @@ OutcomeChecks(kt, b, o, D, tab, pAcc, pRej, F) ==
            Chk("C09", "size_exact", c.size = Len(c.enc)),
            Chk("C09", "size_le_300", Len(c.enc) <= MaxSize),
            \* C04 speaks about every input the implementation accepts, whatever the specification thinks of it
-           Chk("C04", "accepted_input_reencodes_to_itself", o.rest <= Len(b) /\ c.enc = SubSeq(b, 1, Len(b) - o.rest))>>
+           Chk("C04", "accepted_input_reencodes_to_itself", o.rest <= Len(b) /\ c.enc = SubSeq(b, 1, Len(b) - o.rest)),
+           \* C01: whatever was accepted, the decoded record reports itself as verifying
+           Chk("C01", "accepted_record_reports_itself_verifying", c.verify = <<TRUE>>)>>
          \o When(D.verdict = "accept",
            <<Chk("C04", "reencode_reproduces_input", c.enc = SubSeq(b, 1, D.consumed)),
              Chk("C04", "fields_match_parse", c.seq = D.seq /\ c.pairs = D.pairs /\ c.sig = D.sig),
